@@ -12,11 +12,11 @@ from ..callgraph import CallGraph
 from ..cfg import cfg_of
 from ..dag import T, walk, show, simplify
 from ..model import FunctionInfo, AnalysisError, dotted
+from ..pat import Snips
 from ..report import Ctx
 from ..tensor import Typer
 from ..util import norm, fn_body_nodes, walk_local, kwarg
 from .common import arg_permutation_rule, names_in, calls_named
-from .c06 import rule_store, rule_zero_prob
 
 EXPLANATION = (
     "Accumulation-form analysis of the dictionary Bayes filter and predictive observation distribution (each accumulates, "
@@ -65,7 +65,7 @@ def rule_filter(ctx: Ctx):
         return
     st = acc[0]
     tgt = st.target if isinstance(st, ast.AugAssign) else st.targets[0]
-    ctx.check(isinstance(st, ast.AugAssign) and isinstance(st.op, ast.Add), "ACC-1", f, st, "filter: posterior[ns] += ... (sum over predecessor states)", "",
+    ctx.check(isinstance(st, ast.AugAssign) and isinstance(st.op, ast.Add), "ACC-1", f, st, "filter: posterior[<successor>] += ... (sum over predecessor states)", "",
               f"`{norm(st)}` overwrites instead of accumulating: when several belief states share a successor only the last contribution survives")
     lps = enclosing_loops(f, st)
     infos = [items_loop_info(l) for l in lps]
@@ -74,7 +74,7 @@ def rule_filter(ctx: Ctx):
         return
     (src0, m0, a0, s_var, sp), (src1, m1, a1, ns_var, nsp) = infos
     ctx.check(src0 == b and m0 is None, "CALL-1", f, lps[0], "filter: outer loop enumerates the prior belief", "", f"outer loop enumerates `{src0}`")
-    ctx.check(m1 == "next_state_dist" and a1 == [s_var, a], "CALL-1", f, lps[1], f"filter: successors of next_state_dist({s_var}, {a})", "",
+    ctx.check(m1 == "next_state_dist" and a1 == [s_var, a], "CALL-1", f, lps[1], f"filter: successors of next_state_dist(<belief state>, {a})", "",
               f"inner loop enumerates {m1}({', '.join(a1)}); it must be next_state_dist(<belief state>, <action>)")
     ctx.check(ast.unparse(tgt.slice) == ns_var, "ACC-1", f, st, "filter: accumulation is keyed by the successor state", "", f"posterior is keyed by `{ast.unparse(tgt.slice)}`, not by the successor `{ns_var}`")
     # observation likelihood
@@ -85,7 +85,7 @@ def rule_filter(ctx: Ctx):
         ovar = od[0].targets[0].id if isinstance(od[0].targets[0], ast.Name) else None
         inner = c.func.value if isinstance(c.func, ast.Attribute) and c.func.attr == "prob" else None
         ok = inner is not None and isinstance(inner, ast.Call) and [ast.unparse(x) for x in inner.args] == [a, ns_var] and [ast.unparse(x) for x in c.args] == [o]
-        ctx.check(ok, "CALL-1", f, od[0], f"filter: likelihood = observation_dist({a}, {ns_var}).prob({o})", "",
+        ctx.check(ok, "CALL-1", f, od[0], f"filter: likelihood = observation_dist({a}, <successor>).prob({o})", "",
                   f"likelihood is `{norm(c)}`: the observation kernel must be conditioned on the action and the *successor* state, and evaluated at the observed `{o}`")
     else:
         ctx.violation("CALL-1", f, lps[1], "filter: observation likelihood", "the observation kernel is not consulted")
@@ -125,7 +125,7 @@ def rule_predictive(ctx: Ctx):
         return
     st = acc[0]
     tgt = st.target if isinstance(st, ast.AugAssign) else st.targets[0]
-    ctx.check(isinstance(st, ast.AugAssign) and isinstance(st.op, ast.Add), "ACC-1", f, st, "predictive: o_dist[o] += ...", "", f"`{norm(st)}` overwrites instead of accumulating")
+    ctx.check(isinstance(st, ast.AugAssign) and isinstance(st.op, ast.Add), "ACC-1", f, st, "predictive: mass[<observation>] += ...", "", f"`{norm(st)}` overwrites instead of accumulating")
     lps = enclosing_loops(f, st)
     infos = [items_loop_info(l) for l in lps]
     if len(infos) != 3 or None in infos:
@@ -133,8 +133,8 @@ def rule_predictive(ctx: Ctx):
         return
     (src0, m0, a0, s_var, sp), (src1, m1, a1, ns_var, nsp), (src2, m2, a2, o_var, op) = infos
     ctx.check(src0 == b, "CALL-1", f, lps[0], "predictive: outer loop enumerates the belief", "", f"enumerates {src0}")
-    ctx.check(m1 == "next_state_dist" and a1 == [s_var, a], "CALL-1", f, lps[1], f"predictive: next_state_dist({s_var}, {a})", "", f"enumerates {m1}({', '.join(a1)})")
-    ctx.check(m2 == "observation_dist" and a2 == [a, ns_var], "CALL-1", f, lps[2], f"predictive: observation_dist({a}, {ns_var})", "",
+    ctx.check(m1 == "next_state_dist" and a1 == [s_var, a], "CALL-1", f, lps[1], f"predictive: next_state_dist(<belief state>, {a})", "", f"enumerates {m1}({', '.join(a1)})")
+    ctx.check(m2 == "observation_dist" and a2 == [a, ns_var], "CALL-1", f, lps[2], f"predictive: observation_dist({a}, <successor>)", "",
               f"enumerates {m2}({', '.join(a2)}): the observation kernel must be conditioned on the action and the successor state")
     ctx.check(ast.unparse(tgt.slice) == o_var, "ACC-1", f, st, "predictive: keyed by the observation", "", f"keyed by {ast.unparse(tgt.slice)}")
     p = alg.normalise(st.value)
@@ -165,31 +165,211 @@ def rule_vectorised(ctx: Ctx, typer: Typer):
                 roles = MODEL_ARRAYS[sub.value.attr]
                 items = list(sub.slice.elts) if isinstance(sub.slice, ast.Tuple) else [sub.slice]
                 for k, it in enumerate(items):
-                    if isinstance(it, ast.Name):
+                    if isinstance(it, ast.Name) and it.id in f.positional_params:
+                        # the names of the integer index PARAMETERS are the interface of the vectorised methods
                         want = {"ai": "A", "oi": "O", "si": "S", "nsi": "S2"}.get(it.id)
                         if want is None:
                             continue
                         ctx.check(roles[k] == want, "IDX-1", f, sub, f"{name}: {sub.value.attr} axis {k} ({roles[k]}) indexed by `{it.id}`", "",
                                   f"`{it.id}` (an index into the {want} list) selects along axis {k} of {sub.value.attr}, whose role is {roles[k]}")
         if name == "state_estimator_vec":
-            src = ast.unparse(f.node)
-            ok = "dist / dist.sum()" in src and "dist.sum() == 0.0" in src
+            # role: `unnorm` is the variable the contraction is stored in
+            S = Snips(f)
+            ok = False
+            hit = [(st, e) for st, e in S.find("V_unnorm = np.einsum(REST)") if st.value is es[0]]
+            if hit:
+                env = {"unnorm": hit[0][1]["unnorm"]}
+                div = S.first("return V_unnorm / V_unnorm.sum()", env)[0]
+                zt = S.first("if V_unnorm.sum() == 0.0:\n    return V_unnorm", env)[0]
+                if div is not None and zt is not None:
+                    cfg = cfg_of(f)
+                    ok = cfg.dominates(cfg.node_for(zt), cfg.node_for(div))
             ctx.check(ok if ok else None, "NORM-1", f, f.node, "vectorised filter normalises by its own total (zero total returned as is)", "", "idiom not recognised")
+
+
+LISTS = ("state_list", "action_list", "observation_list")
+INDEX_MAPS = {"observation_index": "observation_list", "state_index": "state_list", "action_index": "action_list"}
+COMPS = (ast.ListComp, ast.SetComp, ast.DictComp, ast.GeneratorExp)
+
+
+def self_attr_alias(fi: FunctionInfo, name: str) -> Optional[str]:
+    """X when every definition of the local `name` in fi is the plain alias `name = self.X` (identified by its definition, not its spelling)."""
+    defs = [n for n in fn_body_nodes(fi) if isinstance(n, ast.Name) and isinstance(n.ctx, ast.Store) and n.id == name]
+    vals = [n.value for n in fn_body_nodes(fi) if isinstance(n, ast.Assign) and len(n.targets) == 1 and isinstance(n.targets[0], ast.Name) and n.targets[0].id == name]
+    if not vals or len(vals) != len(defs):
+        return None
+    attrs = {v.attr if isinstance(v, ast.Attribute) and isinstance(v.value, ast.Name) and v.value.id == fi.self_name else None for v in vals}
+    return attrs.pop() if len(attrs) == 1 else None
+
+
+def list_of(fi: FunctionInfo, e: ast.AST) -> Optional[str]:
+    """the model list an expression denotes: self.<list> or a local alias of it."""
+    if isinstance(e, ast.Attribute) and e.attr in LISTS:
+        return e.attr
+    if isinstance(e, ast.Name):
+        a = self_attr_alias(fi, e.id)
+        return a if a in LISTS else None
+    return None
+
+
+def index_map_of(fi: FunctionInfo, e: ast.AST) -> Optional[str]:
+    """the list whose element -> position map an expression denotes: self.<x>_index or a local alias of it."""
+    if isinstance(e, ast.Attribute):
+        return INDEX_MAPS.get(e.attr)
+    if isinstance(e, ast.Name):
+        return INDEX_MAPS.get(self_attr_alias(fi, e.id) or "")
+    return None
+
+
+def position_source(fi: FunctionInfo, store: ast.AST, e: ast.AST) -> Tuple[Optional[str], Optional[str]]:
+    """(list, entity variable) such that the index expression `e` of `store` is the position of the entity in the list."""
+    if isinstance(e, ast.Subscript) and isinstance(e.slice, ast.Name):                      # index_map[entity]
+        return index_map_of(fi, e.value), e.slice.id
+    if not isinstance(e, ast.Name):
+        return None, None
+    for lp in enclosing_loops(fi, store):                                                   # for idx, entity in enumerate(<list>)
+        it = lp.iter
+        if isinstance(lp.target, ast.Tuple) and len(lp.target.elts) == 2 and all(isinstance(x, ast.Name) for x in lp.target.elts) and lp.target.elts[0].id == e.id \
+                and isinstance(it, ast.Call) and isinstance(it.func, ast.Name) and it.func.id == "enumerate" and len(it.args) == 1:
+            return list_of(fi, it.args[0]), lp.target.elts[1].id
+    defs = [n for n in fn_body_nodes(fi) if isinstance(n, ast.Assign) and len(n.targets) == 1 and isinstance(n.targets[0], ast.Name) and n.targets[0].id == e.id]
+    if len(defs) == 1:
+        v = defs[0].value
+        if isinstance(v, ast.Call) and isinstance(v.func, ast.Attribute) and v.func.attr == "index" and len(v.args) == 1 and isinstance(v.args[0], ast.Name):
+            return list_of(fi, v.func.value), v.args[0].id                                  # idx = <list>.index(entity)
+        if isinstance(v, ast.Subscript) and isinstance(v.slice, ast.Name):
+            return index_map_of(fi, v.value), v.slice.id                                    # idx = index_map[entity]
+    return None, None
+
+
+def dist_items_loops(fi: FunctionInfo, dist_method: str) -> List[ast.For]:
+    """`for key, prob in <...dist_method...>(args).items()` loops of fi."""
+    return [n for n in fn_body_nodes(fi) if isinstance(n, ast.For) and isinstance(n.iter, ast.Call) and isinstance(n.iter.func, ast.Attribute) and n.iter.func.attr == "items"
+            and not n.iter.args and isinstance(n.iter.func.value, ast.Call) and dist_method in ast.unparse(n.iter.func.value.func)
+            and isinstance(n.target, ast.Tuple) and len(n.target.elts) == 2 and all(isinstance(e, ast.Name) for e in n.target.elts)]
+
+
+def rule_obs_store(ctx: Ctx, fi: FunctionInfo, what: str, dist_method: str):
+    """TEN-4 for the element store that fills the observation matrix: axis <-> list <-> entity <-> value.  Every variable is identified by
+    what it is (the allocated array, the enumerate position of a list, the key / probability of the enumerated distribution)."""
+    stores = [n for n in fn_body_nodes(fi) if isinstance(n, ast.Assign) and len(n.targets) == 1 and isinstance(n.targets[0], ast.Subscript)
+              and isinstance(n.targets[0].value, ast.Name) and isinstance(n.targets[0].slice, ast.Tuple)]
+    if not stores:
+        ctx.violation("TEN-4", fi, fi.node, f"{what}: element store", "the array is never filled from the functional interface")
+        return
+    st = stores[0]
+    arr = st.targets[0].value.id
+    S = Snips(fi)
+    allocs = [n for n, _ in S.find("V_arr = np.zeros(ANY, REST=ANY)", {"arr": arr}) + S.find("V_arr = np.ones(ANY, REST=ANY)", {"arr": arr})]
+    lists: Optional[List[Optional[str]]] = None
+    if allocs and isinstance(allocs[0].value.args[0], ast.Tuple):
+        lists = []
+        for e in allocs[0].value.args[0].elts:
+            ok_len = isinstance(e, ast.Call) and isinstance(e.func, ast.Name) and e.func.id == "len" and len(e.args) == 1
+            lists.append(list_of(fi, e.args[0]) if ok_len else None)
+    pos = [position_source(fi, st, e) for e in st.targets[0].slice.elts]
+    got_lists = [l for l, _ in pos]
+    ents = [e for _, e in pos]
+    if lists is None or None in lists or None in got_lists:
+        ctx.unknown("TEN-4", fi, st, f"{what}: element store of {len(pos)} axes", f"allocation lists {lists}, index lists {got_lists}")
+        return
+    ctx.check(got_lists == lists, "TEN-4", fi, st, f"{what}: each index is a position in the list its axis was allocated from",
+              f"axes {lists}", f"the array is allocated over {lists} but the store indexes it with positions from {got_lists}")
+    loops = [lp for lp in dist_items_loops(fi, dist_method) if any(st is x for x in ast.walk(lp))]
+    if not loops:
+        ctx.violation("TEN-4", fi, st, f"{what}: value comes from {dist_method}(...).items()", f"the store is not inside a loop over {dist_method}(...).items()")
+        return
+    lp = loops[0]
+    call = lp.iter.func.value
+    cargs = [x.id if isinstance(x, ast.Name) else None for x in call.args]
+    key, val = [e.id for e in lp.target.elts]
+    ok = not call.keywords and len(ents) == len(cargs) + 1 and cargs == ents[:len(cargs)] and ents[len(cargs)] == key
+    ctx.check(ok, "TEN-4", fi, st, f"{what}: the entities of the axes are, in order, the arguments and the key of the enumerated {dist_method}(...)", "",
+              f"the store's axes correspond to entities ({', '.join(map(str, ents))}) but the distribution is {dist_method}({', '.join(map(str, cargs))}) with key `{key}`: "
+              f"a value is written at the position of a different entity than the one it was computed from")
+    ctx.check(isinstance(st.value, ast.Name) and st.value.id == val, "TEN-4", fi, st, f"{what}: stored value is the probability of that key", "",
+              f"stored value `{norm(st.value)}` is not the probability `{val}` paired with the key")
+    zeros = [n for n, _ in S.find("V_arr = np.zeros(ANY, REST=ANY)", {"arr": arr})]
+    ctx.check(bool(zeros), "TEN-4", fi, zeros[0] if zeros else fi.node, f"{what}: all other cells are zero-initialised", "", "the array is not zero-initialised")
+    rets = [n for n in fn_body_nodes(fi) if isinstance(n, ast.Return)]
+    ctx.check(bool(rets) and S.m("return V_arr", rets[0], {"arr": arr}) is not None, "TEN-4", fi, rets[0] if rets else fi.node, f"{what}: returns the filled array", "", "a different array is returned")
+
+
+def rule_obs_zero_prob(ctx: Ctx, fi: FunctionInfo, dist_method: str, list_attr: str, rule="ZERO-1"):
+    """every loop over <dist_method>(...).items() that looks its key up in `list_attr` (via .index or via the element -> position map of that
+    list) filters zero probabilities first, as the function that builds the list does."""
+    cfg = cfg_of(fi)
+    for lp in dist_items_loops(fi, dist_method):
+        key, prob = [e.id for e in lp.target.elts]
+        lookups = []
+        for c in ast.walk(lp):
+            if isinstance(c, ast.Call) and isinstance(c.func, ast.Attribute) and c.func.attr == "index" and list_of(fi, c.func.value) is not None \
+                    and len(c.args) == 1 and isinstance(c.args[0], ast.Name) and c.args[0].id == key:
+                lookups.append(c)
+            if isinstance(c, ast.Subscript) and isinstance(c.slice, ast.Name) and c.slice.id == key and index_map_of(fi, c.value) is not None:
+                lookups.append(c)
+        for lk in lookups:
+            node = cfg.node_for(lk)
+            ok = False
+            for g in cfg.nodes:
+                if g.kind == "if" and any(g.ast is x for x in ast.walk(lp)):
+                    t = g.ast.test
+                    if isinstance(t, ast.Compare) and len(t.ops) == 1 and isinstance(t.left, ast.Name) and t.left.id == prob:
+                        zero_cmp = isinstance(t.comparators[0], ast.Constant) and not isinstance(t.comparators[0].value, bool) and t.comparators[0].value == 0
+                        if zero_cmp and isinstance(t.ops[0], ast.Eq) and any(isinstance(b, ast.Continue) for b in g.ast.body):
+                            ok = ok or (g.id != node and cfg.dominates(g.id, node))          # `if p == 0: continue` before the lookup
+                        if zero_cmp and isinstance(t.ops[0], (ast.Gt, ast.NotEq)) and any(lk is x for b in g.ast.body for x in ast.walk(b)):
+                            ok = True                                                       # lookup inside `if p > 0:`
+            ctx.check(ok, rule, fi, lk, f"{list_attr} lookup of the enumerated key happens only for non-zero probability", "",
+                      f"`{norm(lk)}` is evaluated before / without the zero-probability filter: an entry listed with probability 0 need not be in "
+                      f"the inferred {list_attr} (it collects positive-probability entries only) and the lookup raises")
+
+
+def binders(root: ast.AST):
+    """(variable, iterable, scope) for every `for v in it` statement / comprehension generator with a plain-name target under root;
+    scope is the list of nodes in which the binding is visible."""
+    for n in ast.walk(root):
+        if isinstance(n, ast.For) and isinstance(n.target, ast.Name):
+            yield n.target.id, n.iter, list(n.body)
+        elif isinstance(n, COMPS):
+            for k, g in enumerate(n.generators):
+                if isinstance(g.target, ast.Name):
+                    vis = [x for g2 in n.generators[k + 1:] for x in (g2.iter, *g2.ifs)] + list(g.ifs) + ([n.key, n.value] if isinstance(n, ast.DictComp) else [n.elt])
+                    yield g.target.id, g.iter, vis
+
+
+def rule_obs_list(ctx: Ctx, ol: FunctionInfo):
+    """observation_list = { o : exists a in action_list, ns in state_list with observation_dist(a, ns)(o) > 0 }."""
+    S = Snips(ol)
+
+    def enumerated(var, lst, anchor):
+        """`var` ranges over self.<lst> (for statement or comprehension generator) where `anchor` is evaluated"""
+        return any(v == var and S.m(f"self.{lst}", it) is not None and any(anchor is x for sc in scope for x in ast.walk(sc)) for v, it, scope in binders(ol.node))
+    ok = False
+    for comp in [n for n in ast.walk(ol.node) if isinstance(n, COMPS)]:
+        for g in comp.generators:
+            env = S.m("self.observation_dist(V_act, V_succ).items()", g.iter)
+            env = S.m("(V_obs, V_prob)", g.target, env) if env is not None else None
+            if env is None or not any(S.m("V_prob > 0", t, env) is not None for t in g.ifs):
+                continue
+            head = comp.key if isinstance(comp, ast.DictComp) else comp.elt
+            if S.m("V_obs", head, env) is None:
+                continue
+            ok = ok or (enumerated(env["act"], "action_list", g.iter) and enumerated(env["succ"], "state_list", g.iter))
+    ctx.check(ok, "ZERO-1", ol, ol.node, "observation_list collects observations of positive probability over (action_list x state_list)", "",
+              "observation_list is not the set of positive-probability observations over all (action, successor) pairs")
 
 
 def rule_obs_matrix(ctx: Ctx):
     P = ctx.P
     C = P.cls("TabularPOMDP")
     f = C.methods["observation_matrix"]
-    rule_store(ctx, f, "observation_matrix", "observation_dist", "prob", ("a", "ns", "o"))
-    rule_zero_prob(ctx, [f], "observation", ("observation_dist",))
-    ol = C.methods["observation_list"]
-    src = ast.unparse(ol.node)
-    ok = "self.observation_dist(a, ns).items() if p > 0" in src and "for a in self.action_list" in src and "for ns in self.state_list" in src
-    ctx.check(ok, "ZERO-1", ol, ol.node, "observation_list collects observations of positive probability over (action_list x state_list)", "",
-              "observation_list is not the set of positive-probability observations over all (action, successor) pairs")
+    rule_obs_store(ctx, f, "observation_matrix", "observation_dist")
+    rule_obs_zero_prob(ctx, f, "observation_dist", "observation_list")
+    rule_obs_list(ctx, C.methods["observation_list"])
     oi = C.methods["observation_index"]
-    ok = ast.unparse(oi.node.body[-1].value).replace(" ", "") == "{o:ifori,oinenumerate(self.observation_list)}"
+    last = oi.node.body[-1]
+    ok = Snips(oi).m("return {V_obs: V_pos for V_pos, V_obs in enumerate(self.observation_list)}", last) is not None
     ctx.check(ok, "TEN-4", oi, oi.node, "observation_index maps each observation to its position in observation_list", "", "observation_index is not element -> position")
 
 
@@ -198,31 +378,35 @@ def rule_belief_mdp(ctx: Ctx):
     C = P.cls("BeliefMDP")
     f = C.methods["next_state_dist"]
     s, a = f.positional_params[1:3]
-    src = {ast.unparse(n.targets[0]): n for n in fn_body_nodes(f) if isinstance(n, ast.Assign) and len(n.targets) == 1 and not enclosing_loops(f, n)}
-    bdef = src.get("b")
-    ok = bdef is not None and ast.unparse(bdef.value).replace(" ", "") == f"DictDistribution(dict(zip(*{s})))"
-    ctx.check(ok, "BMDP-1", f, bdef if bdef is not None else f.node, "belief dictionary pairs the belief's states with its probabilities", "", "belief is not rebuilt from the (states, probs) pair")
-    od = src.get("o_dist")
-    ok = od is not None and ast.unparse(od.value) == f"self.pomdp.predictive_observation_dist(b, {a})"
-    ctx.check(ok, "BMDP-1", f, od if od is not None else f.node, f"observation weights = predictive_observation_dist(b, {a})", "", "observation weights are not the predictive distribution of this belief and action")
+    S = Snips(f)
+    top = lambda n: n is not None and not enclosing_loops(f, n)            # noqa: E731  (a definition outside every loop)
+    # roles: `prior` is the variable handed to predictive_observation_dist as the belief, `weights` the variable that call is stored in
+    od, env = S.first(f"V_weights = self.pomdp.predictive_observation_dist(V_prior, {a})")
+    env = env or {}
+    bdef, benv = S.first(f"V_prior = DictDistribution(dict(zip(*{s})))", {k: v for k, v in env.items() if k == "prior"})
+    env = {**(benv or {}), **env}
+    ctx.check(top(bdef), "BMDP-1", f, bdef if bdef is not None else f.node, "belief dictionary pairs the belief's states with its probabilities", "", "belief is not rebuilt from the (states, probs) pair")
+    ctx.check(top(od), "BMDP-1", f, od if od is not None else f.node, f"observation weights = predictive_observation_dist(<belief>, {a})", "", "observation weights are not the predictive distribution of this belief and action")
     lps = [l for l in loops_of(f)]
     if lps:
         info = items_loop_info(lps[0])
         if info:
-            _, _, _, o_var, op = info
+            w_src, w_m, _, o_var, op = info
+            ctx.check(od is not None and w_m is None and w_src == env.get("weights"), "BMDP-2", f, lps[0], "successor beliefs are enumerated over the (observation, weight) pairs of the predictive distribution", "",
+                      f"the loop enumerates `{w_src}`, not the predictive observation distribution of this belief and action")
             est = [n for n in ast.walk(lps[0]) if isinstance(n, ast.Assign) and "state_estimator" in ast.unparse(n.value)]
-            ok = bool(est) and ast.unparse(est[0].value) == f"self.pomdp.state_estimator(b, {a}, {o_var})"
-            ctx.check(ok, "BMDP-2", f, est[0] if est else lps[0], f"successor belief = state_estimator(b, {a}, {o_var}) for the enumerated observation", "",
+            eenv = S.m(f"V_post = self.pomdp.state_estimator(V_prior, {a}, V_obs)", est[0], {**{k: v for k, v in env.items() if k == "prior"}, "obs": o_var}) if est else None
+            ctx.check(eenv is not None, "BMDP-2", f, est[0] if est else lps[0], f"successor belief = state_estimator(<belief>, {a}, <enumerated observation>)", "",
                       "the successor belief is not the posterior for the same belief, action and enumerated observation")
             acc = [n for n in ast.walk(lps[0]) if isinstance(n, (ast.AugAssign, ast.Assign)) and isinstance(getattr(n, "target", None) or n.targets[0], ast.Subscript)]
             if acc:
                 st = acc[-1]
                 ctx.check(isinstance(st, ast.AugAssign) and isinstance(st.op, ast.Add), "BMDP-2", f, st, "weights of equal successor beliefs are added", "",
                           "two observations leading to the same belief overwrite each other's probability")
-                ctx.check(ast.unparse(st.value) == op, "BMDP-2", f, st, "weight is the predictive probability of the observation that produced the belief", "", f"weight is `{norm(st.value)}`")
-            lay = [n for n in ast.walk(lps[0]) if isinstance(n, ast.Assign) and isinstance(n.value, ast.ListComp) and "state_list" in ast.unparse(n.value)]
-            ok = bool(lay) and ast.unparse(lay[0].value.generators[0].iter) == "self.pomdp.state_list" and ".get(" in ast.unparse(lay[0].value.elt) and "0.0" in ast.unparse(lay[0].value.elt)
-            ctx.check(ok, "BMDP-2", f, lay[0] if lay else lps[0], "successor belief is laid out over pomdp.state_list (0 for missing states)", "", "successor belief is not laid out over the POMDP's state list")
+                ctx.check(isinstance(st.value, ast.Name) and st.value.id == op, "BMDP-2", f, st, "weight is the predictive probability of the observation that produced the belief", "", f"weight is `{norm(st.value)}`")
+            post = S.m("V_post = ANY", est[0]) if est else None
+            lay = S.find("V_laid = [V_post.get(V_e, 0.0) for V_e in self.pomdp.state_list]", {"post": post["post"]} if post else {}, within=lps[0])
+            ctx.check(bool(lay), "BMDP-2", f, lay[0][0] if lay else lps[0], "successor belief is laid out over pomdp.state_list (0 for missing states)", "", "successor belief is not laid out over the POMDP's state list")
             bel = [c for c in ast.walk(lps[0]) if isinstance(c, ast.Call) and ast.unparse(c.func) == "Belief"]
             ok = bool(bel) and ast.unparse(kwarg(bel[0], "states") or bel[0].args[0]) == "tuple(self.pomdp.state_list)"
             ctx.check(ok, "BMDP-2", f, bel[0] if bel else lps[0], "belief states are the POMDP's state list", "", "belief states are not pomdp.state_list")
@@ -276,13 +460,24 @@ def rule_tracking(ctx: Ctx):
     calls = calls_named(f, "state_estimator")
     ok = bool(calls) and [ast.unparse(x) for x in calls[0].args][1:] == [a, o] and ast.unparse(calls[0].func.value) == "self.pomdp"
     ctx.check(ok, "TRK-1", f, calls[0] if calls else f.node, f"belief tracker = pomdp.state_estimator(<belief>, {a}, {o})", "", "the tracker does not apply the POMDP's filter with its own (action, observation)")
-    src = ast.unparse(f.node)
-    ctx.check(f"DictDistribution(zip(*{ag}))" in src, "TRK-1", f, f.node, "prior belief rebuilt from the agent state", "", "prior belief is not the agent state")
-    ctx.check("tuple(self.pomdp.state_list)" in src and ".prob(ns) for ns in ss" in src, "TRK-1", f, f.node, "posterior laid out over pomdp.state_list", "", "posterior is not laid out over the state list in order")
+    S = Snips(f)
+    # roles: `prior` = the agent state rebuilt as a distribution, `post` = what the filter returns, `order` = tuple(pomdp.state_list)
+    pri, penv = S.first(f"V_prior = DictDistribution(zip(*{ag}))")
+    arg0 = calls[0].args[0] if calls and calls[0].args else None
+    used = S.m(f"DictDistribution(zip(*{ag}))", arg0) is not None or (pri is not None and S.m("V_prior", arg0, penv) is not None)
+    ctx.check(used, "TRK-1", f, pri if pri is not None else f.node, "prior belief rebuilt from the agent state", "", "prior belief is not the agent state")
+    post = [e["post"] for st, e in S.find("V_post = self.pomdp.state_estimator(REST)") if calls and st.value is calls[0]]
+    env = {"post": post[0]} if post else {}
+    sol = S.solve(["V_order = tuple(self.pomdp.state_list)", "[V_post.prob(V_ns) for V_ns in V_order]"], env) or \
+        S.solve(["V_order = tuple(self.pomdp.state_list)", "(V_post.prob(V_ns) for V_ns in V_order)"], env)
+    ctx.check(sol is not None, "TRK-1", f, f.node, "posterior laid out over pomdp.state_list", "", "posterior is not laid out over the state list in order")
     ad = P.method("ValueBasedTabularPOMDPPolicy", "action_dist")
-    src = ast.unparse(ad.node)
-    ok = "for a in self.pomdp.action_list" in src and "self.action_value(" in src and "== maxv" in src and "uniform" in src
-    ctx.check(ok, "TRK-1", ad, ad.node, "action distribution uniform over exact maximisers of the policy's own action_value", "", "greedy action distribution changed")
+    agd = ad.positional_params[1]
+    SA = Snips(ad)
+    sol = SA.solve([f"V_av = {{V_a1: self.action_value({agd}, V_a1) for V_a1 in self.pomdp.action_list}}",
+                    "V_maxv = max(V_av.values())",
+                    "return DictDistribution.uniform([V_a2 for V_a2, V_v in V_av.items() if V_v == V_maxv])"])
+    ctx.check(sol is not None, "TRK-1", ad, ad.node, "action distribution uniform over exact maximisers of the policy's own action_value", "", "greedy action distribution changed")
 
 
 def run(ctx: Ctx):
@@ -298,6 +493,6 @@ def run(ctx: Ctx):
     mods = ("msdm.core.pomdp.pomdp", "msdm.core.pomdp.tabularpomdp", "msdm.core.pomdp.beliefmdp", "msdm.core.pomdp.policy", "msdm.core.pomdp.alphavectorpolicy")
     arg_permutation_rule(ctx, G, [f for f in P.all_functions() if f.module.name in mods], "ARG")
     for r, k in (("ACC-1", 6), ("CALL-1", 6), ("NORM-1", 6), ("TEN-1", 2), ("TEN-2", 2), ("IDX-1", 5), ("TEN-4", 6), ("ZERO-1", 2),
-                 ("BMDP-1", 2), ("BMDP-2", 5), ("BMDP-3", 3), ("BMDP-4", 3), ("BMDP-5", 3), ("TRK-1", 4), ("ARG", 8)):
+                 ("BMDP-1", 2), ("BMDP-2", 6), ("BMDP-3", 3), ("BMDP-4", 3), ("BMDP-5", 3), ("TRK-1", 4), ("ARG", 8)):
         ctx.require(r, k)
     ctx.assume("floating-point normalisation within tolerance; beliefs with equal float tuples are identified as keys")
